@@ -1,0 +1,167 @@
+//! Verification hooks (feature `verif`) for the executor.
+//!
+//! Builds the real [`Initialized`] executor state machine on harness owned channels (no reader
+//! tasks) and exposes one iteration of its event loop as a step function. Everything forwards to
+//! the real `execute_firm` / `execute_soft` / `is_spread_too_large`; no production logic lives
+//! here.
+
+use std::collections::HashMap;
+
+use astria_core::sequencerblock::v1::block::FilteredSequencerBlock;
+use astria_eyre::eyre::{
+    self,
+    WrapErr as _,
+};
+use tokio::sync::mpsc;
+use tokio_util::{
+    sync::CancellationToken,
+    task::JoinMap,
+};
+
+use super::{
+    create_block_channels,
+    Builder,
+    Channels,
+    Initialized,
+};
+use crate::{
+    celestia::ReconstructedBlock,
+    metrics::Metrics,
+    state::StateReceiver,
+};
+
+pub(crate) struct Harness {
+    initialized: Initialized,
+    firm_sender: mpsc::Sender<Box<ReconstructedBlock>>,
+    soft_sender: mpsc::Sender<FilteredSequencerBlock>,
+}
+
+/// What one iteration of the executor's event loop did.
+pub(crate) enum Stepped {
+    /// `firm_blocks.recv()` yielded a block and the real `execute_firm` returned this.
+    Firm(eyre::Result<()>),
+    /// `soft_blocks.recv()` yielded a block and the real `execute_soft` returned this.
+    Soft(eyre::Result<()>),
+    /// No enabled branch had a block ready; `soft_disabled` is the value of the real
+    /// `is_spread_too_large()` guard.
+    Idle { soft_disabled: bool },
+}
+
+impl Harness {
+    /// Mirrors `Executor::init` without spawning the reader tasks: real `Builder::build` (real
+    /// gRPC client), real `create_initial_node_state` (CreateExecutionSession RPC), real
+    /// `create_block_channels`.
+    pub(crate) async fn init(config: crate::Config, metrics: &'static Metrics) -> eyre::Result<Self> {
+        let shutdown = CancellationToken::new();
+        let executor = Builder {
+            config,
+            shutdown,
+            metrics,
+        }
+        .build()
+        .wrap_err("failed to build executor")?;
+        let state = executor
+            .create_initial_node_state()
+            .await
+            .wrap_err("failed setting initial rollup node state")?;
+        let reader_cancellation_token = executor.shutdown.child_token();
+        let Channels {
+            firm_sender,
+            firm_receiver,
+            soft_sender,
+            soft_receiver,
+        } = create_block_channels(executor.config.execution_commit_level, &state)
+            .wrap_err("failed to create channels")?;
+        let initialized = Initialized {
+            config: executor.config,
+            client: executor.client,
+            firm_blocks: firm_receiver,
+            soft_blocks: soft_receiver,
+            shutdown: executor.shutdown,
+            state,
+            blocks_pending_finalization: HashMap::new(),
+            metrics: executor.metrics,
+            reader_tasks: JoinMap::new(),
+            reader_cancellation_token,
+        };
+        Ok(Self {
+            initialized,
+            firm_sender,
+            soft_sender,
+        })
+    }
+
+    /// The sending half of the channel the Celestia reader forwards firm blocks on.
+    pub(crate) fn firm_sender(&self) -> &mpsc::Sender<Box<ReconstructedBlock>> {
+        &self.firm_sender
+    }
+
+    /// The sending half of the channel the Sequencer reader forwards soft blocks on.
+    pub(crate) fn soft_sender(&self) -> &mpsc::Sender<FilteredSequencerBlock> {
+        &self.soft_sender
+    }
+
+    /// What the readers get from `StateSender::subscribe`.
+    pub(crate) fn subscribe_state(&self) -> StateReceiver {
+        self.initialized.state.subscribe()
+    }
+
+    /// The executor's tracked rollup state.
+    pub(crate) fn state(&self) -> &crate::state::StateSender {
+        &self.initialized.state
+    }
+
+    pub(crate) fn is_spread_too_large(&self) -> bool {
+        self.initialized.is_spread_too_large()
+    }
+
+    pub(crate) fn pending_finalization_numbers(&self) -> Vec<u64> {
+        let mut numbers: Vec<u64> = self
+            .initialized
+            .blocks_pending_finalization
+            .keys()
+            .copied()
+            .collect();
+        numbers.sort_unstable();
+        numbers
+    }
+
+    /// One iteration of `Initialized::run_event_loop`'s biased `select!` with the blocks that
+    /// are ready in the channels right now: firm first; soft only if `!is_spread_too_large()`.
+    pub(crate) async fn step(&mut self) -> Stepped {
+        let soft_disabled = self.initialized.is_spread_too_large();
+        if let Ok(block) = self.initialized.firm_blocks.try_recv() {
+            return Stepped::Firm(self.initialized.execute_firm(block).await);
+        }
+        if !soft_disabled {
+            if let Ok(block) = self.initialized.soft_blocks.try_recv() {
+                return Stepped::Soft(self.initialized.execute_soft(block).await);
+            }
+        }
+        Stepped::Idle {
+            soft_disabled,
+        }
+    }
+
+    /// Runs the real `Initialized::run_event_loop` until both channels are closed and drained
+    /// (the senders held by this harness are dropped first) or it returns an error.
+    pub(crate) async fn run_real_event_loop_to_completion(
+        self,
+    ) -> (eyre::Result<Option<crate::state::State>>, Vec<u64>) {
+        let Self {
+            mut initialized,
+            firm_sender,
+            soft_sender,
+        } = self;
+        drop(firm_sender);
+        drop(soft_sender);
+        let result = initialized.run_event_loop().await;
+        let mut pending: Vec<u64> = initialized
+            .blocks_pending_finalization
+            .keys()
+            .copied()
+            .collect();
+        pending.sort_unstable();
+        (result, pending)
+    }
+}
